@@ -203,6 +203,10 @@ def run_client_segmentations(o, ctx, t, r):
         b"HTTP/1.1 200 OK\r\nTransfer-Encoding: chunked\r\n\r\n5\r\nhello\r\n0\r\n\r\n",
         b"HTTP/1.1 204 \r\n\r\n",
         b"HTTP/1.1 200 OK\r\nBig: " + b"v" * 300 + b"\r\nContent-Length: 2\r\n\r\nok",
+        # an interim response followed by the final one: whatever the client makes of it, it must not depend on the cuts
+        b"HTTP/1.1 100 Continue\r\n\r\nHTTP/1.1 200 OK\r\nContent-Length: 2\r\n\r\nhi",
+        b"HTTP/1.1 100 Continue\r\nX: y\r\n\r\nHTTP/1.1 204 No Content\r\n\r\n",
+        b"HTTP/1.1 103 Early Hints\r\nLink: </s.css>\r\n\r\nHTTP/1.1 200 OK\r\nTransfer-Encoding: chunked\r\n\r\n2\r\nhi\r\n0\r\n\r\n",
         b"HTTP/1.1 2000 OK\r\n\r\n",
         b"HTTP/1.1 200 OK\r\nbad header\r\n\r\n",
     ]
@@ -360,6 +364,17 @@ def run_parse(pid, oracle):
         t = "thorough" if tier in ("thorough", "search") else "quick"
         lines = [f"{d} {hx(b)}" for d, b in G.cases(seed, t)]
         diff_run(o, ctx, lines, oracle=oracle, nontrivial=nontriv, tags=tags_parse)
+        if pid == "C01":
+            # very long targets: real code only
+            ll = ["REQ " + hx(b) for b in G.long_target_cases(seed, t)]
+            for c, a in zip(ll, C.run_sharded(ctx["kimpl"], ll, shards=min(C.NCPU, len(ll)))):
+                o.evaluations += 1
+                o.count("long-target:" + a.split()[0])
+                why = oracle_c01(c, a, None)
+                if not why and not a.startswith("OK"):
+                    why = "a well-formed request with a long target was not accepted: " + a[:60]
+                if why and len(o.violations) < 50:
+                    o.violations.append({"case": c[:2000] + "...", "impl": a[:300], "why": why + " (target longer than 65535 bytes)"})
         if pid == "C02":
             r = rng_for(seed, "c02")
             n = 3000 if t == "quick" else 120000
